@@ -190,19 +190,19 @@ fn roles_cfg(t: Tier) -> GenCfg {
 }
 
 fn c20_extra(_spec: &Spec, tier: Tier, seed: u64, known: &Known, report: &mut Report) {
-  let (shards, cases) = match tier { Tier::Quick => (8, 8000), Tier::Thorough => (16, 40000) };
+  let (shards, cases) = match tier { Tier::Quick => (16, 8000), Tier::Thorough => (16, 40000) };
   let cfg = roles_cfg(tier);
   let scfg = SearchCfg { prop: "C20", label: "roles", seed, shards, cases_per_shard: cases, max_shrink_iters: 3000 };
   let (stats, found) = driver::search(&scfg, known, || gen::role_case_strategy(cfg.clone()), |c, s| check_roles(c, s), |c| pretty_case(c));
   report.absorb("roles", stats, found);
   // Programs with one state-dependent violation (guarded hidden dependency / overlap / cycle): same oracle.
-  let (shards, cases) = match tier { Tier::Quick => (8, 6000), Tier::Thorough => (16, 60000) };
+  let (shards, cases) = match tier { Tier::Quick => (16, 6000), Tier::Thorough => (16, 60000) };
   let gcfg = super::diag::guarded_cfg(tier);
   let scfg = SearchCfg { prop: "C20", label: "guarded", seed, shards, cases_per_shard: cases, max_shrink_iters: 3000 };
   let (stats, found) = driver::search(&scfg, known, || super::diag::strategy(gcfg.clone()), |c, s| super::diag::check(c, super::diag::Mode::C20, s), |c| pretty_case(c));
   report.absorb("guarded", stats, found);
   // (c) aborts (task failures, injected panics) followed by bottom-up builds.
-  let (shards, cases) = match tier { Tier::Quick => (8, 8000), Tier::Thorough => (16, 120000) };
+  let (shards, cases) = match tier { Tier::Quick => (16, 8000), Tier::Thorough => (16, 120000) };
   let acfg = after_aborts_cfg(tier);
   let scfg = SearchCfg { prop: "C20", label: "after-aborts", seed, shards, cases_per_shard: cases, max_shrink_iters: 3000 };
   let (stats, found) = driver::search(&scfg, known, || { use proptest::strategy::Strategy; gen::case_strategy(acfg.clone()).boxed() }, |c, s| check_after_aborts(c, s), |c| pretty_case(c));
@@ -266,7 +266,7 @@ pub const C20: Spec = Spec {
   transform: identity,
   judge: c20_judge,
   opts: Opts::default,
-  quick: (8, 10000),
+  quick: (16, 10000),
   thorough: (16, 250000),
   extra: Some(c20_extra),
   strategy: None,
